@@ -5,10 +5,21 @@ from l2common import *
 import applyc, streams, gen, emit, scen
 
 THEOREMS = {"C12": ["strip_path_spec", "strip_path_basename", "unquote_quote", "file_line_plain", "file_line_quoted",
-                    "guess_order", "guess_never_devnull"],
+                    "guess_order", "guess_never_devnull",
+                    "unified_header_scan_quoted", "unified_header_scan_blanks", "stripped_dir", "git_header_scan_names",
+                    "git_header_scan_pN", "stripped_ab_zero", "stripped_ab_default", "git_header_scan_quoted",
+                    "ext_name_spec", "git_rename_plain", "git_rename_quoted", "git_rename_scan_next",
+                    "right_file_patched", "right_file_patched_p1", "right_file_patched_blanks", "right_file_patched_git"],
             "C13": ["consume_printed", "parse_unified_header", "unified_roundtrip", "rejects_loop", "rejects_skipped",
                     "context_roundtrip", "context_roundtrip_list", "normalise_sides", "normalise_idem", "context_roundtrip_normal",
-                    "reject_context_file", "wf_hunk_c_unified", "roundtrip_both_forms", "wf_hunk_cb_ok", "tail_ok_cb_ok"],
+                    "reject_context_file", "wf_hunk_c_unified", "roundtrip_both_forms", "wf_hunk_cb_ok", "tail_ok_cb_ok",
+                    "reject_unified_file", "unified_header_scan_names", "unified_reject_file_reparses",
+                    "context_header_scan", "context_reject_file_reparses", "rejects_loop_gen",
+                    "apply_patch_reject_stream", "rejected_by_incl", "rejected_by_force",
+                    "apply_patch_unified_reject_reparses", "apply_patch_context_reject_reparses",
+                    "apply_patch_unified_reject_reparses_checked", "apply_patch_context_reject_reparses_checked",
+                    "hdr_ok_simple", "wf_hunk_shift", "wf_hunk_c_shift", "read_back_names", "ex_unified_reject",
+                    "ex_context_reject", "ex_runs", "blank_name_not_read_back", "negative_start_not_read_back"],
             "C14": ["split_lines_roundtrip", "split_lines_wf", "terminator_keep", "terminator_lf", "terminator_crlf",
                     "final_newline_iff", "apply_output_lines"],
             "C20": ["define_eval"]}
@@ -199,10 +210,12 @@ def run_c12(run_, rng, tier, exe):
         hs = [] if hunkless else sec["hs"]
         a = sec["a"]; b = a if hunkless else sec["b"]
         text = emit.emit_git(X, Y, hs, kind=kind)
-        N = rng.choice([None, 1, 1, 2, 3])
-        def cut(nm, N=N):
+        N = rng.choice([None, 0, 1, 1, 2, 3])
+        def cut(nm, N=N, side="a"):
             if N is None:
                 return nm.rsplit("/", 1)[-1]
+            if N == 0:
+                return side + "/" + nm      # nothing removed: the a/ and b/ of the header lines stay
             return "/".join(nm.split("/")[N - 1:])
         if N is not None and N - 1 >= len(X.split("/")):
             continue
@@ -213,7 +226,8 @@ def run_c12(run_, rng, tier, exe):
         o = {"i": "p.diff"}
         if N is not None:
             o["p"] = N
-        gs.append(dict(tree=tree, opts=o, umask=0o022, secs=[], kind=kind, src=cut(X), dst=cut(Y), A=emit.file_bytes(a), B=emit.file_bytes(b)))
+        dst = cut(Y, side="b") if kind in ("rename", "copy", "add") else cut(Y)
+        gs.append(dict(tree=tree, opts=o, umask=0o022, secs=[], kind=kind, src=cut(X), dst=dst, A=emit.file_bytes(a), B=emit.file_bytes(b)))
 
     def judge_gs(s, r):
         after = tree_no_meta(r["tree"])
